@@ -243,6 +243,37 @@ def check_grammar(ctx):
         if isinstance(c, ast.Call) and dotted(c.func) == "re.split" and c.args and const_str(c.args[0]) is not None:
             srx = const_str(c.args[0])
     ok_sum = sum_sep is not None and srx is not None and [s.strip() for s in re.split(srx, f"2.0*X0{sum_sep}(1+2j)*Y1{sum_sep}-1.5*I")] == ["2.0*X0", "(1+2j)*Y1", "-1.5*I"]
+    # the text is split as printed: any rewriting the parser applies to the text before splitting (re.sub, str.replace) is replayed, by the
+    # checker's own `re`, on printed sums covering every shape repr() gives a coefficient (plain, signed, exponent notation with either
+    # sign, complex in brackets): the parts must come out as the printed terms. (repr() switches to `e+` notation only from 1e16 on, which
+    # is outside the property's stated domain |c| < 1e15 -- there the unbracketed `+` of `1e+16*X0` is indeed taken for the sum separator.)
+    pre = []
+    pre_ok = True
+    for c in body_walk(sum_init.node):
+        if isinstance(c, ast.Call) and dotted(c.func) == "re.sub" and len(c.args) >= 3:
+            if const_str(c.args[0]) is not None and const_str(c.args[1]) is not None:
+                pre.append((c.lineno, "sub", const_str(c.args[0]), const_str(c.args[1])))
+            else:
+                pre_ok = False
+        if isinstance(c, ast.Call) and isinstance(c.func, ast.Attribute) and c.func.attr == "replace" and len(c.args) == 2 and isinstance(c.func.value, ast.Name) and c.func.value.id in positional_params(sum_init.node):
+            if const_str(c.args[0]) is not None and const_str(c.args[1]) is not None:
+                pre.append((c.lineno, "replace", const_str(c.args[0]), const_str(c.args[1])))
+            else:
+                pre_ok = False
+    if sum_sep is not None and srx is not None:
+        printed = ["2.0*X0", "(1+2j)*Y1", "-1.5*I", "1e-05*X0", "-2.5e-10*Z3*Z4", "(1e-05-2e-07j)*Y1", "(-0-1e-09j)*X2", "3*Z10", "-1e-05*Y0"]
+        text = sum_sep.join(printed)
+        try:
+            for _, kind, a, b in sorted(pre):
+                text = re.sub(a, b, text) if kind == "sub" else text.replace(a, b)
+            parts = [x.strip() for x in re.split(srx, text)]
+        except re.error:
+            parts = None
+        if not pre_ok:
+            ctx.undecided(R3, sum_init.key + ":text-as-printed", "the text is rewritten with a computed pattern before it is split", sum_init)
+        else:
+            wrong = [(a, b) for a, b in zip(printed, parts or [])if a != b]
+            ctx.check(parts == printed, R3, sum_init.key + ":text-as-printed", f"{len(printed)} printed coefficient shapes survive the parser's {len(pre)} text rewriting step(s) and the split", f"the parser rewrites the text before splitting it ({'; '.join(k + ' /' + a + '/ -> ' + repr(b) for _, k, a, b in sorted(pre)) or 'split only'}) and a printed sum does not come apart into its printed terms: " + (f"{wrong[0][0]!r} arrives as {wrong[0][1]!r}" if wrong else f"{len(printed)} terms printed, {len(parts or [])} parts") + " -- a coefficient that repr() prints in exponent notation (below 1e-4) cannot be parsed back", sum_init)
     ctx.check(ok_sum, R3, sum_init.key + ":sum-split", f"sum separator {sum_sep!r} is split by /{srx}/ (not inside brackets)", f"the printed sum separator {sum_sep!r} is not split correctly by the parser's /{srx}/", sum_init)
     # empty sum prints as a zero term the parser accepts
     empty = [n for n in body_walk(sum_repr.node) if isinstance(n, ast.Call) and dotted(n.func) == "PauliTerm" and len(n.args) == 2]
@@ -303,6 +334,56 @@ def check_slots(ctx):
         ctx.check(expect in norm(f.node), R4, f.key + ":tuples", "JSON lists restored to tuples", "stored lists are not restored to tuples: the loaded object differs from the saved one", f)
     ms = repo.func("measurements.measurements:Measurements.save")
     ctx.check("for bitstring in self.bitstrings" in norm(ms.node), R4, ms.key + ":all-bitstrings", "every bitstring is written, in order", "not every bitstring is written in order", ms)
+    # every bit is written as a plain int on every path: shots produced by numpy sampling hold numpy integers, which json cannot
+    # serialise -- a path that writes the shots as stored is only sound under a test that looked at *every* bit of *every* shot
+    md = Defs(ms.node)
+    vals = []
+    for n in body_walk(ms.node):
+        if isinstance(n, ast.Dict):
+            vals += [v for k, v in zip(n.keys, n.values) if k is not None and const_str(k) == "bitstrings"]
+        if isinstance(n, ast.Assign) and isinstance(n.targets[0], ast.Subscript) and const_str(n.targets[0].slice) == "bitstrings":
+            vals.append(n.value)
+    flat = []
+    for v in vals:
+        if isinstance(v, ast.Name):
+            flat += [(x, st) for x, st in zip(md.defs.get(v.id, []), md.assign_stmts.get(v.id, [])) if isinstance(x, ast.AST)] or [(v, None)]
+        else:
+            flat.append((v, None))
+
+    def _converts(e):
+        return any(isinstance(c, ast.Call) and ((dotted(c.func) == "map" and c.args and dotted(c.args[0]) == "int") or dotted(c.func) == "int") for c in ast.walk(e))
+
+    def _exhaustive_guard(st):
+        from ..astutil import parent_map as _pm
+
+        par = _pm(ms.node)
+        x = st
+        while x in par:
+            x = par[x]
+            if isinstance(x, ast.If):
+                tests = [x.test] + [dv for nm in ast.walk(x.test) if isinstance(nm, ast.Name) for dv in md.defs.get(nm.id, []) if isinstance(dv, ast.AST)]
+                for t in tests:
+                    for c in ast.walk(t):
+                        if isinstance(c, ast.Call) and dotted(c.func) == "all" and c.args and isinstance(c.args[0], (ast.GeneratorExp, ast.ListComp)) and any(norm(g.iter) == "self.bitstrings" for g in c.args[0].generators) and len(c.args[0].generators) >= 2:
+                            return True
+        return False
+
+    def _arms(v, st, tests=()):
+        # CANON merges `if c: x = A else: x = B` into `x = A if c else B`: judge the arms one by one
+        if isinstance(v, ast.IfExp):
+            return _arms(v.body, st, tests + (v.test,)) + _arms(v.orelse, st, tests + (v.test,))
+        return [(v, st, tests)]
+
+    def _test_exhaustive(t):
+        cands = [t] + [dv for nm in ast.walk(t) if isinstance(nm, ast.Name) for dv in md.defs.get(nm.id, []) if isinstance(dv, ast.AST)]
+        return any(isinstance(c, ast.Call) and dotted(c.func) == "all" and c.args and isinstance(c.args[0], (ast.GeneratorExp, ast.ListComp)) and any(norm(g.iter) == "self.bitstrings" for g in c.args[0].generators) and len(c.args[0].generators) >= 2 for x in cands for c in ast.walk(x))
+
+    flat = [a for v, st in flat for a in _arms(v, st)]
+    if flat:
+        raw = [(v, st) for v, st, tests in flat if not _converts(v) and not (st is not None and _exhaustive_guard(st)) and not any(_test_exhaustive(t) for t in tests)]
+        ctx.check(not raw, R4, ms.key + ":bits-as-int", "every path converts each bit with int() before writing", f"on some path the shots are written as stored (`{short(raw[0][0], 80) if raw else ''}`) without converting each bit with int(): a measurement set holding numpy integers in any shot (samples appended after from_counts, say) cannot be saved (json raises TypeError), so it does not come back equal", f"{ms.module.relpath}:{raw[0][0].lineno}" if raw else ms)
+    else:
+        ctx.undecided(R4, ms.key + ":bits-as-int", "cannot find the `bitstrings` member of the saved record", ms)
 
 
 def check_wiring(ctx):
